@@ -350,10 +350,11 @@ class Ctx:
 
     # -- correspondence ----------------------------------------------------------------------
     def correspond(self, harness, area, args=(), env=None, tag=None, nontrivial=None, timeout=3000,
-                   seed=None, tier=None, race=False, driver_args=()):
+                   seed=None, tier=None, race=False, driver_args=(), oracle_filter=None):
         """Build + run the harness, pipe its log into the driver. Returns stream dict."""
         tag = tag or harness
-        st = {"harness": harness, "area": area, "tag": tag, "build_ok": False, "ran": False}
+        st = {"harness": harness, "area": area, "tag": tag, "build_ok": False, "ran": False,
+              "oracle_filter": oracle_filter}
         self.streams.append(st)
         binp, out = build_harness(harness, race=race)
         if binp is None:
@@ -432,7 +433,15 @@ class Ctx:
             if not st.get("summary"):
                 broken.append("driver gave no summary for %s" % st["tag"])
             for m in st.get("messages", []):
-                (oracle_msgs if m.startswith("ORACLE-FAIL") else diff_msgs).append((st, m))
+                if m.startswith("ORACLE-FAIL"):
+                    # a shared harness evaluates the oracles of several properties; each check only
+                    # answers for its own (the others are reported by their own checks)
+                    if st.get("oracle_filter") and not re.search(st["oracle_filter"], m):
+                        st.setdefault("foreign_oracle_fails", []).append(m[:300])
+                        continue
+                    oracle_msgs.append((st, m))
+                else:
+                    diff_msgs.append((st, m))
             if st.get("bad", 0):
                 broken.append("unparseable lines in %s" % st["tag"])
         for pr in self.proofs:
